@@ -153,13 +153,32 @@ Section Sem.
     = flat_map (fun j => map (fun a => (j, a, x)) (wcalls (wd_step d))) (seq 0 (Nat.min (length fs) (length ws))).
   Proof. unfold wfold_log. rewrite wfold_log_from_snd, combine_length. reflexivity. Qed.
 
-  (* wf_calls: one call per component, in order, each on the closure's own argument *)
-  Theorem wf_calls d fs ws x : wcalls (wd_step d) = [AX] ->
-    snd (wfold_log d fs ws x) = map (fun j => (j, AX, x)) (seq 0 (Nat.min (length fs) (length ws))).
+  (* wf_calls: one call per component, in order, each on the same argument value; [a] says which object
+     the source passes (the closure's own argument, or an explicit copy of it) *)
+  Theorem wf_calls_any d fs ws x a : wcalls (wd_step d) = [a] ->
+    snd (wfold_log d fs ws x) = map (fun j => (j, a, x)) (seq 0 (Nat.min (length fs) (length ws))).
   Proof.
     intros H. rewrite wfold_log_calls, H. generalize (seq 0 (Nat.min (length fs) (length ws))).
     intros l. induction l as [|j l IH]; [reflexivity|].
     simpl. f_equal; try exact IH.
+  Qed.
+
+  Theorem wf_calls d fs ws x : wcalls (wd_step d) = [AX] ->
+    snd (wfold_log d fs ws x) = map (fun j => (j, AX, x)) (seq 0 (Nat.min (length fs) (length ws))).
+  Proof. apply wf_calls_any. Qed.
+
+  Corollary wf_calls_any_eq_len d fs ws x a : wcalls (wd_step d) = [a] -> length fs = length ws ->
+    snd (wfold_log d fs ws x) = map (fun j => (j, a, x)) (seq 0 (length fs)).
+  Proof. intros H L. rewrite (wf_calls_any d fs ws x a H), <- L, Nat.min_id. reflexivity. Qed.
+
+  Corollary wf_call_count_any d fs ws x a : wcalls (wd_step d) = [a] -> length fs = length ws ->
+    forall i, (i < length fs)%nat ->
+    count_occ Nat.eq_dec (map (fun c : call => fst (fst c)) (snd (wfold_log d fs ws x))) i = 1%nat.
+  Proof.
+    intros H L i Hi. rewrite (wf_calls_any_eq_len d fs ws x a H L), map_map. simpl. rewrite map_id.
+    pose proof (seq_NoDup (length fs) 0) as ND.
+    assert (In i (seq 0 (length fs))) as Hin by (apply in_seq; lia).
+    apply (proj1 (NoDup_count_occ' Nat.eq_dec _) ND i Hin).
   Qed.
 
   Corollary wf_calls_eq_len d fs ws x : wcalls (wd_step d) = [AX] -> length fs = length ws ->
@@ -252,3 +271,43 @@ Arguments std_step {V} v0 v1 vadd vmul vsub vopp X d.
 (* ---- instance used by the correspondence run: V = Z, X = list Z *)
 Definition zwfold := @wfold Z 0%Z 1%Z Z.add Z.mul Z.sub Z.opp (list Z).
 Definition zwfold_log := @wfold_log Z 0%Z 1%Z Z.add Z.mul Z.sub Z.opp (list Z).
+
+(* components of the correspondence run: integer polynomials of the (flattened) argument,
+   [(false, a, b)]: b + sum_j a_j x_j ;  [(true, a, b)]: b + sum_j a_j x_j^2 *)
+Open Scope Z_scope.
+Fixpoint dotz (sq : bool) (a x : list Z) : Z :=
+  match a, x with
+  | ai :: a', xi :: x' => ai * (if sq then xi * xi else xi) + dotz sq a' x'
+  | _, _ => 0
+  end.
+Definition zcomp := (bool * list Z * Z)%type.
+Definition zcomp_fun (c : zcomp) (x : list Z) : Z := snd c + dotz (fst (fst c)) (snd (fst c)) x.
+
+Fixpoint zlist_eqb (a b : list Z) : bool :=
+  match a, b with
+  | [], [] => true
+  | x :: a', y :: b' => (x =? y) && zlist_eqb a' b'
+  | _, _ => false
+  end.
+(* an observed call: (index of the component, was the very same object passed?, contents seen) *)
+Definition obs_call := (nat * bool * list Z)%type.
+Definition call_matches (c : nat * warg * list Z) (o : obs_call) : bool :=
+  Nat.eqb (fst (fst c)) (fst (fst o))
+  && (match snd (fst c) with AX => snd (fst o) | ACopy => negb (snd (fst o)) end)
+  && zlist_eqb (snd c) (snd o).
+Fixpoint calls_match (l : list (nat * warg * list Z)) (o : list obs_call) : bool :=
+  match l, o with
+  | [], [] => true
+  | c :: l', p :: o' => call_matches c p && calls_match l' o'
+  | _, _ => false
+  end.
+(* one correspondence case: the model run on the same components, weights and argument
+   reproduces the observed value and the observed call sequence *)
+Definition wcase_ok (d : wf_descr) (comps : list zcomp) (ws x : list Z) (val : Z) (log : list obs_call) : bool :=
+  let r := zwfold_log d (map zcomp_fun comps) ws x in
+  (fst r =? val) && calls_match (snd r) log.
+Fixpoint wmismatches_from (n : nat) (l : list bool) : list nat :=
+  match l with
+  | [] => []
+  | b :: t => if b then wmismatches_from (S n) t else n :: wmismatches_from (S n) t
+  end.
